@@ -311,6 +311,16 @@ func (dbPT *DBPTInfo) Shards() map[uint64]Shard {
 	return dbPT.shards
 }
 
+// FlushMemTable flushes the memtable of an open shard of this engine, so that its rows leave the WAL.
+// DROP SERIES calls it before it records the dropped series: a WAL replay after a crash writes the replayed rows
+// through the normal write path, where a dropped series id does not count, and would bring rows written before the
+// drop back under a new id.
+func FlushMemTable(sh Shard) {
+	if s, ok := sh.(*shard); ok {
+		s.ForceFlush()
+	}
+}
+
 // SetShards only used for mock test
 func (dbPT *DBPTInfo) SetShards(shards map[uint64]Shard) {
 	dbPT.shards = shards
